@@ -28,9 +28,50 @@ def proto_runs(mode):
     return f
 
 
+def obs_runs(mode):
+    def f(tier):
+        mt = MTUS_T if tier == "thorough" else MTUS_Q
+        return [("main", ["--mode", mode, "--mtu", str(m), "--wifi", "0"]) for m in mt]
+    return f
+
+
+def c06_runs(tier):
+    mt = MTUS_T if tier == "thorough" else MTUS_Q
+    return [("main", ["--mode", "c06", "--mtu", str(m), "--wifi", "0"]) for m in mt]
+
+
+def c10_runs(tier):
+    mt = [576, 1500] if tier == "thorough" else [1500]
+    return [("main", ["--mode", "c10", "--mtu", str(m), "--wifi", "0", "--a", str(a)]) for m in mt for a in (0, 1, 2)]
+
+
+EMIT = {"main": {"sources": MC + ["checks/emit.c"], "modes": ["c06", "c10"]}}
+OBS = {"main": {"sources": MC + ["checks/obs.c"], "modes": ["c07", "c19"]}}
 PROTO = {"main": {"sources": MC + ["checks/proto.c"], "modes": ["c02", "c03", "c09"]}}
 
 PROPS = {
+    "C06": {
+        "builds": EMIT, "runs": c06_runs, "level": "model_checking",
+        "technique": "explicit-state BFS to fixpoint over session states; in every reachable state with a definite mapper an exhaustive Emit family (all descriptor tuples n<=2, n=3 and every n up to the frame capacity in one representative state per mapper class, over-declared counts) is executed and the ordered port-call log compared with the descriptor list",
+        "assumptions": ["descriptor kinds outside {Probe, Train} are outside the property's domain",
+                        "heavy families (n=3 tuples, all n, position sweeps) run once per (mapper, apparent address) class, the n<=2 tuples in every state"],
+    },
+    "C10": {
+        "builds": EMIT, "runs": c10_runs, "level": "model_checking",
+        "technique": "explicit-state BFS to fixpoint over a two-responder world (A emits, B observes) with an in-flight frame queue; B's QueryResp checked against the frames delivered",
+        "assumptions": ["in-flight queue bounded at 3 frames (Emit disabled while it would overflow)", "three address assignments for (A,B)"],
+    },
+    "C07": {
+        "builds": OBS, "runs": obs_runs("c07"), "level": "model_checking",
+        "technique": "explicit-state BFS to fixpoint over a counting alphabet with a generator event (0..300 outstanding observations), product with an observation-set reference model; QueryResp decoded independently",
+        "assumptions": ["observations differing only in kind or Ethernet destination are not in the alphabet (the statement does not say whether they are distinct)",
+                        "generator bounded at 300 outstanding observations (the property's range)"],
+    },
+    "C19": {
+        "builds": OBS, "runs": obs_runs("c19"), "level": "model_checking",
+        "technique": "explicit-state BFS over a generator alphabet: boundedness = the reachable state set closes; allocation-ledger monitors on every transition",
+        "assumptions": ["bound demanded: retained bytes <= 64 KiB + icon size; the actual cap is read from the fixpoint, not from a constant"],
+    },
     "C02": {
         "builds": PROTO, "runs": proto_runs("c02"), "level": "model_checking",
         "technique": "explicit-state BFS to fixpoint over the real parseFrame with an independent wire decoder as oracle, executed twice with different fresh-memory fill patterns and compared transition by transition",
